@@ -273,6 +273,7 @@ Fixpoint tspec (live : list (name * (N * bool))) (next : N) (started : list N)
           Bool.eqb b (match live_get live n with Some _ => true | None => false end) && tspec live next started ops' outs' runs
       | TList, TNames l =>
           list_eqb N.eqb l (sort_by (fun x => x) (map fst live)) && tspec live next started ops' outs' runs
+      | TCancelAll, TCode Nil => tspec [] next started ops' outs' runs
       | _, _ => false
       end
   | _, _ => false
